@@ -270,6 +270,13 @@ class Interp:
                 want = {"is_err": 1, "is_ok": 0, "is_some": 1, "is_none": 0}[short.rsplit("::", 1)[1]]
                 return ("b", a[2] == want)
             return TOP
+        # Option combinators preserve None (`key.as_ref().and_then(|k| table.get(k)).cloned()`)
+        if short.startswith("std::option::Option") and short.endswith(("::and_then", "::map", "::cloned", "::copied", "::filter",
+                                                                        "::as_deref", "::inspect", "::flatten")) and args:
+            a = args[0]
+            if a[0] == "enum" and a[3] == "None":
+                return ("enum", "std::option::Option", 0, "None", ())
+            return TOP
         # derived equality between the subject and a value of known variant
         d = t["f"].get("def")
         if d in ("std::cmp::PartialEq::eq", "std::cmp::PartialEq::ne") and len(args) == 2 and self.variant >= 0:
@@ -283,9 +290,27 @@ class Interp:
                     if not other[4]:
                         return ("b", d.endswith("::eq"))
             return TOP
-        # crate-local function receiving the subject operation: interpret it under the same assumption
+        # a local closure applied to arguments that carry the subject (`renumber(node.get_operation())`): interpret its body;
+        # the call passes (closure, (args..)), the body takes them as separate parameters
         cb = self.facts.bodies.get(name)
+        if cb is not None and cb.kind == "closure" and self.depth < 4 and len(args) == 2 and args[1] not in (TOP, BOT) \
+                and args[1][0] == "tuple" and SUBJ in args[1][1]:
+            key = (cb.id, self.variant, tuple(args[1][1]))
+            if key in self.memo:
+                return self.memo[key]
+            self.memo[key] = TOP
+            sub = Interp(self.facts, self.variant, self.subject_calls, self.depth + 1, self.memo, self.call_models,
+                         self.subject_adt, self.site_values)
+            sub.forced = self.forced
+            r = sub.run(cb, {i + 2: a for i, a in enumerate(args[1][1])}).ret
+            self.memo[key] = r
+            return r
+        # crate-local function receiving the subject operation: interpret it under the same assumption
         if cb is not None and SUBJ in args and self.depth < 6:
+            return self.run_callee(cb, args)
+        # small crate-local predicate helpers (`fn must_keep(..) -> bool`): interpret them too, so that a guard moved into a
+        # helper is seen exactly like the inline guard (forced call sites inside the helper keep working: same site table)
+        if cb is not None and self.depth < 3 and cb.kind != "closure" and cb.local_ty(0) == "bool" and cb.nblocks() <= 60:
             return self.run_callee(cb, args)
         return TOP
 
